@@ -224,15 +224,33 @@ func c05Codec(c *Ctx) {
 }
 
 // modePairs extracts (tested constant -> OR-ed constant) pairs from a mode conversion function.
-func modePairs(fn *ssa.Function) map[string]bool {
+func modePairs(top *ssa.Function) map[string]bool {
 	out := map[string]bool{}
+	for _, fn := range fnsDeep(top) {
+		modePairsIn(fn, fn != top, out)
+	}
+	return out
+}
+
+func modePairsIn(fn *ssa.Function, helper bool, out map[string]bool) {
 	instrs(fn, func(b *ssa.BasicBlock, _ int, ins ssa.Instruction) {
-		bo, ok := ins.(*ssa.BinOp)
-		if !ok || bo.Op != token.OR {
+		var k *ssa.Const
+		switch x := ins.(type) {
+		case *ssa.BinOp:
+			if x.Op != token.OR {
+				return
+			}
+			k, _ = x.Y.(*ssa.Const)
+		case *ssa.Return:
+			// a helper that returns the pattern of the matching case ("case os.ModeDir: return S_IFDIR")
+			if !helper || len(x.Results) != 1 {
+				return
+			}
+			k, _ = x.Results[0].(*ssa.Const)
+		default:
 			return
 		}
-		k, ok := bo.Y.(*ssa.Const)
-		if !ok || k.Value == nil {
+		if k == nil || k.Value == nil {
 			return
 		}
 		if len(b.Preds) != 1 {
@@ -267,7 +285,6 @@ func modePairs(fn *ssa.Function) map[string]bool {
 			out[in+"->"+k.Value.ExactString()] = true
 		}
 	})
-	return out
 }
 
 // tableField recognises a field of an element of a package-level table ("t.stat" with t ranging
@@ -285,8 +302,16 @@ func tableField(v ssa.Value) (g *ssa.Global, elem ssa.Value, field int, ok bool)
 		break
 	}
 	var ia *ssa.IndexAddr
+	var arr ssa.Value
 	switch x := v.(type) {
 	case *ssa.Field:
+		if ix, isIx := x.X.(*ssa.Index); isIx {
+			if ld, isLd := ix.X.(*ssa.UnOp); isLd && ld.Op == token.MUL {
+				if g, ok := ld.X.(*ssa.Global); ok {
+					return g, ix, x.Field, true
+				}
+			}
+		}
 		ld, isLd := x.X.(*ssa.UnOp)
 		if !isLd || ld.Op != token.MUL {
 			return nil, nil, 0, false
@@ -309,13 +334,20 @@ func tableField(v ssa.Value) (g *ssa.Global, elem ssa.Value, field int, ok bool)
 				if ld, isLd := sts[0].Val.(*ssa.UnOp); isLd && ld.Op == token.MUL {
 					ia, _ = ld.X.(*ssa.IndexAddr)
 				}
+				// range over an array: the row is indexed out of a copy of the whole table
+				if ix, isIx := sts[0].Val.(*ssa.Index); isIx {
+					arr = ix.X
+				}
 			}
 		}
 	}
-	if ia == nil {
+	if ia == nil && arr == nil {
 		return nil, nil, 0, false
 	}
-	base := ia.X
+	base := arr
+	if ia != nil {
+		base = ia.X
+	}
 	if ld, isLd := base.(*ssa.UnOp); isLd && ld.Op == token.MUL {
 		base = ld.X
 	}
@@ -459,9 +491,13 @@ func (c *Ctx) importedConst(pkgPath, name string) (string, bool) {
 
 // typeMasks: the masks under which fn compares its parameter with file-type patterns: "mode & K"
 // gives K, any other derivation of the compared value gives "?".
-func typeMasks(fn *ssa.Function) map[string]bool {
+func typeMasks(top *ssa.Function) map[string]bool {
 	out := map[string]bool{}
-	for _, b := range fn.Blocks {
+	var blocks []*ssa.BasicBlock
+	for _, fn := range fnsDeep(top) {
+		blocks = append(blocks, fn.Blocks...)
+	}
+	for _, b := range blocks {
 		iff := lastIf(b)
 		if iff == nil {
 			continue
@@ -778,15 +814,36 @@ func c05RestoreMatrix(c *Ctx) {
 		}
 		for _, f := range fns {
 			for _, call := range calls(f, func(string) bool { return true }) {
-				switch callee(call) {
-				case "os.Chown", "os.Lchown":
-					e.owner = true
-				case "github.com/pkg/xattr.LSet", "github.com/pkg/xattr.Set":
-					e.xattr = true
-				case "syscall.Chmod", "os.Chmod":
-					e.mode = true
-				case "os.Chtimes":
-					e.times = true
+				names := []string{callee(call)}
+				// a primitive handed to a new helper that calls it ("applyOwner(dst, os.Lchown, ...)")
+				if h := directCallee(call); h != nil && newHelpers[h] {
+					for k, a := range call.Common().Args {
+						fv, isFn := a.(*ssa.Function)
+						if !isFn || k >= len(h.Params) || fv.Object() == nil {
+							continue
+						}
+						called := false
+						instrs(h, func(_ *ssa.BasicBlock, _ int, ins ssa.Instruction) {
+							if ci, ok := ins.(ssa.CallInstruction); ok && ci.Common().Value == ssa.Value(h.Params[k]) {
+								called = true
+							}
+						})
+						if called {
+							names = append(names, short(fv.Object().(*types.Func).FullName()))
+						}
+					}
+				}
+				for _, name := range names {
+					switch name {
+					case "os.Chown", "os.Lchown":
+						e.owner = true
+					case "github.com/pkg/xattr.LSet", "github.com/pkg/xattr.Set":
+						e.xattr = true
+					case "syscall.Chmod", "os.Chmod":
+						e.mode = true
+					case "os.Chtimes":
+						e.times = true
+					}
 				}
 			}
 		}
@@ -982,6 +1039,22 @@ func c05NamesOpaque(c *Ctx) {
 					key := fmt.Sprintf("%s:%s", fnKey(fn), name)
 					if why, ok := namePredicateExceptions[fnKey(fn)+"|"+name]; ok {
 						c.info(key, ins.Pos(), "exception: %s", why)
+						return
+					}
+					// not a name: every operand is the name-and-value blob of an xattr element (which
+					// is split at its NUL separator, however that is written) or a constant
+					notName, strArgs := true, 0
+					for _, a := range x.Common().Args {
+						if b, isBasic := a.Type().Underlying().(*types.Basic); !isBasic || b.Info()&types.IsString == 0 {
+							continue
+						}
+						strArgs++
+						if !onlyOrigins(a, func(o string) bool { return o == "field:FormatXAttr.NameAndValue" || strings.HasPrefix(o, "const:") }) {
+							notName = false
+						}
+					}
+					if notName && strArgs > 0 && hasOrigin(x.Common().Args[0], func(o string) bool { return o == "field:FormatXAttr.NameAndValue" }) {
+						c.info(key, ins.Pos(), "operand is FormatXAttr.NameAndValue, not an entry name")
 						return
 					}
 					c.bad(key, ins.Pos(), "%s inspects the characters of a name or path inside the archive traversal: names are arbitrary byte strings (anything but '/' and NUL), so a prefix/suffix/substring/relative-path test treats some legal names differently from their siblings; compare path.Dir/path.Base results for equality instead", name)
